@@ -140,7 +140,6 @@ def _params(o, p):
 def impl_class(p):
     o = _mk(p)
     psd = np.asarray(o.psd)
-    p["_obj"] = o
     return [psd]
 
 
